@@ -268,11 +268,79 @@ func typeArgString(t types.Type) string {
 			}
 		}
 		return fmt.Sprintf("%s %s", s, elemStr)
+	case *types.Signature:
+		return "func" + signatureArgString(t)
+	case *types.Struct:
+		var b strings.Builder
+		b.WriteString("struct{")
+		for i := 0; i < t.NumFields(); i++ {
+			if i > 0 {
+				b.WriteString("; ")
+			}
+			f := t.Field(i)
+			if !f.Embedded() {
+				b.WriteString(f.Name())
+				b.WriteByte(' ')
+			}
+			b.WriteString(typeArgString(f.Type()))
+			if tag := t.Tag(i); tag != "" {
+				b.WriteByte(' ')
+				b.WriteString(strconv.Quote(tag))
+			}
+		}
+		b.WriteString("}")
+		return b.String()
+	case *types.Interface:
+		if !t.IsMethodSet() {
+			return types.TypeString(t, PathOf)
+		}
+		var b strings.Builder
+		b.WriteString("interface{")
+		for i := 0; i < t.NumMethods(); i++ { // complete method set, sorted
+			if i > 0 {
+				b.WriteString("; ")
+			}
+			m := t.Method(i)
+			b.WriteString(m.Name())
+			b.WriteString(signatureArgString(m.Type().(*types.Signature)))
+		}
+		b.WriteString("}")
+		return b.String()
 	default:
-		// Fallback for rare type arguments (e.g. signature/interface/struct).
-		// Collisions are mainly caused by local named types, handled above.
+		// Fallback for the remaining type arguments (type parameters, unions).
 		return types.TypeString(t, PathOf)
 	}
+}
+
+// signatureArgString spells the parameters and results of a signature with
+// typeArgString, so that local named types inside them stay distinguishable.
+func signatureArgString(sig *types.Signature) string {
+	tuple := func(t *types.Tuple, variadic bool) string {
+		var b strings.Builder
+		for i := 0; i < t.Len(); i++ {
+			if i > 0 {
+				b.WriteString(", ")
+			}
+			typ := t.At(i).Type()
+			if variadic && i == t.Len()-1 {
+				if s, ok := typ.(*types.Slice); ok {
+					b.WriteString("..." + typeArgString(s.Elem()))
+					continue
+				}
+			}
+			b.WriteString(typeArgString(typ))
+		}
+		return b.String()
+	}
+	s := "(" + tuple(sig.Params(), sig.Variadic()) + ")"
+	switch res := sig.Results(); res.Len() {
+	case 0:
+	case 1:
+		s += " " + typeArgString(res.At(0).Type())
+	default:
+		s += " (" + tuple(res, false) + ")"
+	}
+	return s
 }
 
 const (
